@@ -196,3 +196,16 @@ Proof.
   - split; [reflexivity|]. intros j Hj. destruct j as [|j]; [reflexivity|lia].
   - repeat split; vm_compute; reflexivity.
 Qed.
+
+(* `exceptions=()` - a specification that lists nothing: every exception is foreign, so whatever the function does there is
+   exactly one invocation, for every value of attempts *)
+Theorem C15_empty_spec_single_invocation : forall attempts outs,
+  n_calls (snd (run attempts (listed_g []) outs)) = 1%nat.
+Proof.
+  intros. rewrite (C15_invocations attempts (listed_g []) outs 0).
+  - unfold spec_calls. lia.
+  - split.
+    + unfold stops, listed_g. destruct (outs 0%nat); reflexivity.
+    + intros j Hj. lia.
+Qed.
+Print Assumptions C15_empty_spec_single_invocation.
